@@ -295,6 +295,7 @@ func casSeq(s *hx.Suite, out *hx.Out, rng *rand.Rand, gov string, _ sdk.Context)
 		for k, v := range cur {
 			shadow[k] = v
 		}
+		casOk := true // every entry's stated old value equals the value current when that entry is applied
 		for j := 0; j < nEnt; j++ {
 			key := hex.EncodeToString([]byte{0xFE, byte(rng.Intn(3))})
 			old := shadow[key]
@@ -312,6 +313,9 @@ func casSeq(s *hx.Suite, out *hx.Out, rng *rand.Rand, gov string, _ sdk.Context)
 			spaceOk := 1
 			if rng.Intn(8) == 0 {
 				space, spaceOk = "nosuchstore", 0
+			}
+			if old != shadow[key] || spaceOk == 0 {
+				casOk = false
 			}
 			ups = append(ups, fxgovtypes.UpdateStore{Space: space, Key: key, OldValue: old, Value: val})
 			parts = append(parts, fmt.Sprintf("%d:%s:%s:%s", spaceOk, key, dash(old), dash(val)))
@@ -349,6 +353,9 @@ func casSeq(s *hx.Suite, out *hx.Out, rng *rand.Rand, gov string, _ sdk.Context)
 		out.Nontrivial("cas|" + r + "|" + fmt.Sprint(nEnt) + "|" + fmt.Sprint(authOk))
 		if authOk == 0 && err == nil {
 			out.Violate("raw store update applied with a non-governance authority")
+		}
+		if !casOk && err == nil && res == "ok" {
+			out.Violate("raw store update applied although an entry's stated old value differs from the value current when it is applied (or its store space is unknown)")
 		}
 	}
 	_ = sdkmath.ZeroInt
